@@ -11,7 +11,6 @@ index carries the point -- all within 1e-9 * scale.
 from __future__ import annotations
 
 import math
-from fractions import Fraction
 
 from vt import gen, monitor as M
 from vt.gen import held, violated, ood
@@ -31,38 +30,13 @@ ASSUMPTIONS = ["fractions.Fraction arithmetic and math.hypot/sqrt are correct (m
 CASE_LIMIT_S = 20.0
 
 KF_VERTICAL = "C20:vertical-segment"
-KF_HORIZONTAL = "C20:horizontal-segment-inexact-ordinate"
-KF_NEARVERT = "C20:near-vertical-segment-ill-conditioned"
-KF_NEARHOR = "C20:near-horizontal-segment-ulp-rise"
-MECH_ORDER = [KF_VERTICAL, KF_HORIZONTAL, KF_NEARVERT, KF_NEARHOR]
 
 
-def mechanism(a, b, q=None):
-    """Known-finding id whose input predicate the leg [a, b] (and, for the
-    almost-horizontal finding, the query q) satisfies, or None.  A predicate
-    over the input coordinates only."""
-    dx, dy = b[0] - a[0], b[1] - a[1]
-    if a[0] == b[0] and a[1] == b[1]:
-        return None
-    if a[0] == b[0]:
+def mechanism(a, b):
+    """Known-finding id whose input predicate the leg [a, b] satisfies, or
+    None.  The only open finding: an exactly vertical leg (x1 == x2)."""
+    if a[0] == b[0] and a[1] != b[1]:
         return KF_VERTICAL
-    if a[1] == b[1]:
-        return KF_HORIZONTAL
-    if abs(dx) <= 1e-6 * abs(dy):
-        return KF_NEARVERT
-    if abs(dy) <= 1e-6 * abs(dx):
-        # almost horizontal: the finding concerns queries whose perpendicular
-        # foot falls on the leg with an ordinate within 4 ulp of y1 or y2
-        u = Fraction(math.ulp(max(abs(a[1]), abs(b[1]))))
-        if q is None:
-            return KF_NEARHOR if abs(dy) <= 4 * u else None
-        X1, Y1, X2, Y2, QX, QY = (Fraction(v) for v in (a[0], a[1], b[0], b[1], q[0], q[1]))
-        DX, DY = X2 - X1, Y2 - Y1
-        t = ((QX - X1) * DX + (QY - Y1) * DY) / (DX * DX + DY * DY)
-        if 0 <= t <= 1:
-            fy = Y1 + t * DY
-            if min(abs(fy - Y1), abs(fy - Y2)) <= 4 * u:
-                return KF_NEARHOR
     return None
 
 
@@ -340,18 +314,16 @@ def _same(a, b):
 def classify_query(case, qi, got, raised_type):
     """Known-finding id for one failing query, or None.
 
-    The failure is attributed to a known mechanism only if (1) proj_segment is
-    wrong on at least one leg, (2) every leg on which it is wrong satisfies the
-    input predicate of an open finding (exactly vertical, exactly horizontal,
-    near-vertical, almost horizontal with the foot ordinate within 4 ulp of an
-    end ordinate), and
-    (3) the polyline-level answer actually observed is exactly what a correct
-    minimum-over-legs gives from tracklib's own per-leg answers -- i.e. the
-    polyline / mapOnTrack logic itself did nothing wrong."""
+    The failure is attributed to the open finding (exactly vertical leg) only
+    if (1) the real proj_segment is wrong on at least one leg, (2) every leg on
+    which it is wrong is exactly vertical (x1 == x2), and (3) the polyline-level
+    answer actually observed is exactly what a correct minimum-over-legs gives
+    from tracklib's own per-leg answers -- i.e. the polyline / mapOnTrack logic
+    itself did nothing wrong.  Everything else stays a violation."""
     pts = _pts(case)
     q = case["Q"][qi][:2]
     perleg = _per_leg(pts, q)
-    wrong = [(i, mechanism(pts[i], pts[i + 1], q)) for i, cls, r, exc, prob in perleg if prob]
+    wrong = [(i, mechanism(pts[i], pts[i + 1])) for i, cls, r, exc, prob in perleg if prob]
     if not wrong:
         return None
     if any(mech is None for i, mech in wrong):
@@ -370,14 +342,7 @@ def classify_query(case, qi, got, raised_type):
         if case["kind"] != "seg":
             if len(got) < 4 or not _same(got[3], ref[4]):
                 return None
-    # attribute to the wrong leg nearest to the query (deterministic in the input)
-    best = None
-    for i, mech in wrong:
-        dmin = G.point_segment_dist(q, pts[i], pts[i + 1])
-        key = (dmin, MECH_ORDER.index(mech))
-        if best is None or key < best[0]:
-            best = (key, mech)
-    return best[1]
+    return KF_VERTICAL
 
 
 def _raised_type(w):
